@@ -1322,6 +1322,61 @@ def fmt17(ctx: Ctx) -> None:
     ctx.R.ok("FMT-17", f"{n_repr} renderings of {sorted(fields)} in stackscope._types", "all through !r / repr()")
 
 
-C18 = [fmt1, fmt2, fmt3, fmt5, fmt7, fmt10_11, fmt14, fmt15, fmt16, fmt17]
+def fmt18(ctx: Ctx) -> None:
+    """FMT-18 two reader/writer agreements of the tree text.  (a) Frame._format prefixes the lines of one context: the first with
+    start_context, a later line that itself starts with the child indicator (a child context / child stack heading written by
+    Context._format) with start_child_context, every other line with continue_context -- decided from the guards each append sits
+    under.  (b) Context._format replaces the *first* line of a child task stack (its header) by the child's heading: the line that
+    gets the start_child marker is line 0"""
+    from .opcodes import path_guards_of
+    mod = ctx.P.mod("_types")
+    fr = mod.fn("Frame._format")
+    n = 0
+    for c in [x for x in ast.walk(fr) if isinstance(x, ast.Call) and norm(x.func) == "lines.append" and x.args and isinstance(x.args[0], ast.BinOp) and isinstance(x.args[0].op, ast.Add)
+              and isinstance(x.args[0].left, ast.Name)]:
+        marker = c.args[0].left.id
+        if marker not in ("start_context", "start_child_context", "continue_context"):
+            continue
+        loops = [l for l in mod.ancestors(c) if isinstance(l, ast.For) and any(l is y for y in ast.walk(fr))]
+        if not loops:
+            continue
+        gs = []
+        for g_, pol in path_guards_of(mod, c, loops[0]):
+            while isinstance(g_, ast.UnaryOp) and isinstance(g_.op, ast.Not):
+                g_, pol = g_.operand, not pol
+            gs.append((g_, pol))
+        sw = [(g_, pol) for g_, pol in gs if norm(g_) == "line.startswith(child_context_indicator)"]
+        first = [(g_, pol) for g_, pol in gs if norm(g_) in ("idx == 0", "not idx", "idx != 0", "idx")]
+        n += 1
+        if marker == "start_child_context":
+            if sw and all(pol for _, pol in sw):
+                ctx.R.ok("FMT-18", "Frame._format: start_child_context is prefixed to lines that start with the child indicator")
+            elif sw:
+                ctx.R.fail("FMT-18", mod, c, "Frame._format prefixes start_child_context to the lines that do NOT start with the child indicator (and the continuation marker to those that do): child contexts and child "
+                           "task stacks are drawn as plain continuation lines and ordinary lines as branches; the nesting cannot be read back", construct="Frame._format: child indicator test inverted")
+            else:
+                ctx.R.undecided("FMT-18", "Frame._format: the guard of the start_child_context line does not test line.startswith(child_context_indicator)")
+        elif marker == "continue_context":
+            if sw and any(pol for _, pol in sw):
+                ctx.R.fail("FMT-18", mod, c, "Frame._format prefixes continue_context to the lines that start with the child indicator", construct="Frame._format: child indicator test inverted")
+            else:
+                ctx.R.ok("FMT-18", "Frame._format: continue_context is prefixed to the remaining lines")
+    if n < 2:
+        ctx.R.undecided("FMT-18", f"only {n} context-line appends recognised in Frame._format")
+    cx = mod.fn("Context._format")
+    heads = [a for a in ast.walk(cx) if isinstance(a, ast.Assign) and len(a.targets) == 1 and isinstance(a.targets[0], ast.Subscript) and norm(a.targets[0].value) == "sublines"
+             and not isinstance(a.targets[0].slice, ast.Slice)]
+    for a in heads:
+        idx = norm(a.targets[0].slice)
+        if idx == "0":
+            ctx.R.ok("FMT-18", f"Context._format: child heading replaces sublines[0]: {norm(a.value)[:40]}")
+        elif idx.lstrip("-").isdigit():
+            ctx.R.fail("FMT-18", mod, a, f"Context._format writes a child task stack's heading into sublines[{idx}]: the header line (line 0, the one that gets the start_child marker) keeps the generic "
+                       "'stackscope.Stack of ...' text and the last frame line of the child is overwritten", construct=f"child heading at sublines[{idx}]")
+        else:
+            ctx.R.undecided("FMT-18", f"Context._format: child heading index `{idx}`")
+
+
+C18 = [fmt1, fmt2, fmt3, fmt5, fmt7, fmt10_11, fmt14, fmt15, fmt16, fmt17, fmt18]
 C19 = [fmt2, fmt4, fmt6, fmt8, fmt9, fmt12, fmt13]
 C20 = [cont7, mode_rules, mode4, ref1]
